@@ -33,7 +33,9 @@ def jsonable(x, depth=0):
     if isinstance(x, bool) or x is None:
         return x
     if isinstance(x, int):
-        return int(x) if abs(x) < 2 ** 53 else "int:" + str(int(x))
+        if abs(x) < 2 ** 53:
+            return int(x)
+        return "int:" + str(int(x)) if int(x).bit_length() < 2000 else f"int:0x{int(x) >> (int(x).bit_length() - 256):x}...({int(x).bit_length()} bits)"
     if isinstance(x, float):
         x = float(x)
         if x != x or x in (float("inf"), float("-inf")):
